@@ -372,8 +372,8 @@ var registry = []propertySpec{
 				Bounds: "every keyword spelling (15 + none) x lower/UPPER/Capitalised x 23 month spellings + an unknown word x shapes {year, month year, day month year, day year}; day 0..99 in one-digit, two-digit and leading-zero form, year 1..9999 with 1-4 digits (all digits symbolic); separators of 1, 2 and 4 spaces with leading/trailing space"},
 			{Name: "VerifC04_Range", Quick: tierSpec{Cases: 4 * 3 * 3 * 3 * 3}, Thorough: tierSpec{Cases: 4 * 3 * 3 * 3 * 3}, Sched: -1,
 				Bounds: "4 between-words x 3 and-words x 3 letter cases x 3x3 shapes, each side with/without a keyword, digits symbolic"},
-			{Name: "VerifC04_RangeEnds", Quick: tierSpec{Cases: 5}, Thorough: tierSpec{Cases: 5}, Sched: -1, Solver: "cvc5",
-				Bounds: "5 ranges whose second date lies inside the period named by the first (or that are written the later date first), with keywords; the day symbolic 1..28"},
+			{Name: "VerifC04_RangeEnds", Quick: tierSpec{Cases: 7}, Thorough: tierSpec{Cases: 7}, Sched: -1, Solver: "cvc5",
+				Bounds: "5 ranges whose second date lies inside the period named by the first (or that are written the later date first), with keywords, and ranges between two days of one month / one year (whole-period ranges among them); days symbolic"},
 			{Name: "VerifC04_NearMiss", Quick: tierSpec{Cases: 12}, Thorough: tierSpec{Cases: 12}, Sched: -1,
 				Bounds: "12 undocumented forms with symbolic day and year digits"},
 		},
